@@ -29,6 +29,7 @@ def check(tier, replay):
         "C08", tier, replay, spec="VGroup.tla", mods="ops_h,ops_v", trace=("Trace_VGroup.tla", "Trace_VGroup.cfg"),
         mc=[("MC_VGroup.tla", "MC_VGroup.cfg")],
         gens=[("one behaviour per transition (2 vgroups, 1 vdata, 1 raw element, <=3 members)", "Gen_VGroup.tla", "Gen_VGroup_cover.cfg", "cover", {"sample": 25000}),
+              ("every history of <= 5 calls (2 groups, 1 vdata, <= 2 members; detach, reopen in between)", "Gen_VGroup.tla", "Gen_VGroup_hist.cfg", "cover", {"sample": 4000}),
               ("simulate depth 30 (4 vgroups, 2 vdatas, names of 1/63/64/65/300 bytes)", "Gen_VGroup.tla", "Gen_VGroup_sim.cfg", "sim", {"num_quick": 2500, "num": 60000, "depth": 31})],
         mutators={"New", "SetName", "SetClass", "Add", "Insert", "DelRef", "DeleteG", "DeleteD", "Detach", "Attach", "Reopen"},
         need_actions=["New", "SetName", "SetClass", "Add", "Insert", "DelRef", "Detach", "Attach", "DeleteG", "DeleteD", "Info", "Lone", "Iterate", "Find"],
